@@ -153,6 +153,11 @@ class RDFWriter(object):
         #self.graph.add((parent_node, rdf_predicate, bag))
         #for curr_val in values:
         #    self.graph.add((bag, RDF.li, Literal(curr_val)))
+        # odML tuple values are kept as lists of strings; export them
+        # using the odML tuple notation "(a;b)" so they can be imported again.
+        values = ["(%s)" % ";".join(val) if isinstance(val, (list, tuple)) else val
+                  for val in values]
+
         if rdflib_version_major() >= 6:
             seq_list = []
             for curr_val in values:
